@@ -316,15 +316,15 @@ pub fn run(args: &Args, report: &Report) {
         }
     });
     if args.replay.is_none() {
-        report.require("c05.nontrivial_blocks", args.by_tier(300, 3_000));
-        report.require("c05.blocks_multi_height_jump", args.by_tier(200, 2_000));
-        report.require("c05.blocks_multi_height_jump_with_forced_txs", args.by_tier(100, 1_000));
-        report.require("c05.blocks_zero_advance", args.by_tier(100, 1_000));
-        report.require("c05.blocks_with_events_beyond_da_height", args.by_tier(150, 1_500));
-        report.require("c05.forced_executed", args.by_tier(100, 1_000));
-        report.require("c05.messages_imported", args.by_tier(300, 3_000));
-        report.require("c05.forced_failed_total", args.by_tier(100, 1_000));
-        report.require("c05.validated", args.by_tier(500, 5_000));
+        report.require("c05.nontrivial_blocks", args.by_tier(1900, 19000));
+        report.require("c05.blocks_multi_height_jump", args.by_tier(1400, 14000));
+        report.require("c05.blocks_multi_height_jump_with_forced_txs", args.by_tier(1300, 13000));
+        report.require("c05.blocks_zero_advance", args.by_tier(750, 7500));
+        report.require("c05.blocks_with_events_beyond_da_height", args.by_tier(1700, 17000));
+        report.require("c05.forced_executed", args.by_tier(1400, 14000));
+        report.require("c05.messages_imported", args.by_tier(2700, 27000));
+        report.require("c05.forced_failed_total", args.by_tier(2900, 29000));
+        report.require("c05.validated", args.by_tier(2900, 29000));
     }
     report.finish(
         args,
